@@ -151,7 +151,12 @@ unsafe impl Send for Job {}
 struct Worker {
     slot: Mutex<Option<Job>>,
     cv: Condvar,
+    /// The OS thread is between taking a job and being back at its waiting loop.
     busy: std::sync::atomic::AtomicBool,
+    /// The worker carries a logical thread that is not done yet. Only changed while the global lock
+    /// is held, so that which worker a stolen job gets is a function of the simulated history and
+    /// not of how quickly an OS thread gets back to its loop.
+    assigned: std::sync::atomic::AtomicBool,
 }
 
 static POOL: Mutex<Vec<&'static Worker>> = Mutex::new(Vec::new());
@@ -169,6 +174,7 @@ pub fn init_pool(n: usize) {
             slot: Mutex::new(None),
             cv: Condvar::new(),
             busy: std::sync::atomic::AtomicBool::new(false),
+            assigned: std::sync::atomic::AtomicBool::new(false),
         }));
         pool.push(w);
         std::thread::Builder::new()
@@ -235,6 +241,7 @@ fn worker_loop(w: &'static Worker) {
         // Completion.
         {
             let mut g = lock();
+            w.assigned.store(false, std::sync::atomic::Ordering::Release);
             if let Some(inner) = g.as_mut() {
                 inner.threads[job.logical].state = TState::Done;
                 inner.order.u64(0xD0);
@@ -486,10 +493,15 @@ pub fn join(a: DynJob<'_>, b: DynJob<'_>) {
         let mut worker = None;
         let mut b_first = false;
         if steal && !inner.cfg.inline_only {
-            // Find a free OS thread.
+            // The first worker that carries no unfinished logical thread (a deterministic choice). Its OS
+            // thread may still be on its way back to the waiting loop: wait for it (it needs no lock
+            // for that), so that a steal is never refused for reasons of real time.
             let pool = POOL.lock().unwrap();
             for w in pool.iter() {
-                if !w.busy.swap(true, std::sync::atomic::Ordering::Acquire) {
+                if !w.assigned.swap(true, std::sync::atomic::Ordering::AcqRel) {
+                    while w.busy.swap(true, std::sync::atomic::Ordering::Acquire) {
+                        std::thread::yield_now();
+                    }
                     worker = Some(*w);
                     break;
                 }
